@@ -9,6 +9,7 @@ import Mfi.Model.Admin
 import Mfi.Lemmas.AccL
 import Mfi.Lemmas.ResL
 import Mfi.Props.C10
+import Mfi.Model.Interest
 namespace Mfi.Props.C12
 open Mfi Mfi.Admin Mfi.Gen
 
@@ -253,5 +254,27 @@ theorem deleverage_cannot_worsen_health {pre : Mfi.Risk.PreCache} {ps : List Mfi
     (h : Mfi.Risk.endDeleverage pre ps = .ok (seized, repaid)) :
     ∃ cm, Mfi.Risk.components ps .maint = .ok cm ∧ pre.aMaint - pre.lMaint ≤ cm.assets - cm.liabs :=
   Mfi.Props.C10.end_deleverage_spec h
+
+/-! ### known finding C12-F3: the permissionless `migrate_curve` can re-price a bank whose settings are frozen
+
+The seven-point form keeps rates on a u32 grid whose ceiling is 1000 % APR; a LEGACY curve may legally carry a plateau or
+maximum rate above that (validate_legacy only demands 0 < plateau < max). `migrate_curve` needs no signature and does not
+look at FREEZE_SETTINGS; for such a curve it clamps the rates, i.e. changes the interest curve of a bank — frozen or not. -/
+
+/-- the legacy curve of the witness: optimal 50 %, plateau 100 %, maximum 1400 % -/
+def frozenLegacy : Mfi.Interest.IrCalc :=
+  { optimal := Mfi.Fx.ONE / 2, plateau := Mfi.Fx.ONE, maxIr := 14 * Mfi.Fx.ONE, insFixed := 0, insRate := 0, grpFixed := 0, grpRate := 0,
+    progFixed := 0, progRate := 0, addProgramFees := false, zeroRate := 0, hundredRate := 0,
+    points := [⟨0,0⟩,⟨0,0⟩,⟨0,0⟩,⟨0,0⟩,⟨0,0⟩], curveType := 0 }
+
+/-- **migrate_can_change_the_curve** (kernel-checked witness; replayed on the real instruction by the C12 monitor every
+    run: 'migrate-curve-changes-frozen-rate'): the configuration is accepted, the migration succeeds, and the base rate
+    at full utilisation falls from 1400 % to (just under) 1000 % -/
+theorem migrate_can_change_the_curve :
+    Mfi.Interest.validate frozenLegacy = .ok true ∧
+    Mfi.Interest.baseRate frozenLegacy Mfi.Fx.ONE = .ok (14 * Mfi.Fx.ONE) ∧
+    ∃ c', Mfi.Interest.migrateCurve frozenLegacy = .ok c' ∧
+      ∃ r, Mfi.Interest.baseRate c' Mfi.Fx.ONE = .ok r ∧ r < 10 * Mfi.Fx.ONE + 1 ∧ 9 * Mfi.Fx.ONE < r := by
+  refine ⟨by rfl, by rfl, _, by rfl, _, by rfl, by decide, by decide⟩
 
 end Mfi.Props.C12
